@@ -1,0 +1,14 @@
+//go:build verif
+
+package server
+
+// VerifHook, when set by a verification driver, receives one event per
+// rate-limit / auth decision. It is called inside the critical section that
+// made the decision, after the state change.
+var VerifHook func(name string, args ...interface{})
+
+func verifEvent(name string, args ...interface{}) {
+	if h := VerifHook; h != nil {
+		h(name, args...)
+	}
+}
